@@ -187,11 +187,16 @@ Definition handle_touch (c : conn) (ft sid : Z) : outcome * conn :=
   | GStream _ c1 => (OOk RNone, c1)
   end.
 
-(* _get_or_create_stream_for_send on a fresh local stream id (API call; no limit is checked on the receive side) *)
+(* _get_or_create_stream_for_send (API call send_stream_data / reset_stream ...; no limit is checked on the receive side).
+   The two ValueErrors of the code leave the state untouched: "Cannot send data on peer-initiated unidirectional
+   stream" (not _stream_can_send) and "Cannot send data on unknown peer-initiated stream" (unknown id that is not ours).
+   _streams_finished is NOT consulted: the id of a discarded stream can be opened again (its frames stay ignored). *)
 Definition local_open (c : conn) (sid : Z) : conn :=
+  if negb (can_send c sid) then c else
   match sget sid (c_streams c) with
   | Some _ => c
-  | None => let m := if unidirectional sid then 0 else c_msd c in
+  | None => if negb (Bool.eqb (client_initiated sid) (c_client c)) then c else
+            let m := if unidirectional sid then 0 else c_msd c in
             set_streams c (c_streams c ++ [(sid, mkStrm m m false recv_init)])
   end.
 
